@@ -174,6 +174,30 @@ DEBUG_LINES = ["next", "step", "continue", "info", "list", "ll", "print R1", "R1
                "execute print_reg(R1)", "execute SET(R2, 7)", "execute __eval(\"1/0\")", "goto 1", "xyzzy", "", "print ((((", "next 3"]
 
 
+def stdin_bytes_oracle():
+    """`hera [mode] -` as a process of its own, standard input decoded strictly (what every non-C UTF-8 locale does;
+    forced here with PYTHONIOENCODING), fed bytes that are not text: an input error (status 3, a message, no traceback),
+    as for a file with such bytes (D67); and the same program in plain ASCII runs with status 0."""
+    import subprocess
+    code = "import sys; sys.path.insert(0, %r); from hera.main import external_main; external_main()" % framework.REPO
+    env = dict(os.environ, PYTHONIOENCODING="utf-8:strict", PYTHONPATH=framework.REPO)
+    n = 0
+    for mode in ([], ["preprocess"], ["assemble", "--stdout"], ["disassemble"]):
+        for data, want in ((b"SET(R1, 1)\n// \xff\xfe\n", 3), (b"\x80", 3), (b"SET(R1, 1)\n" if mode != ["disassemble"] else b"0000\n", 0)):
+            try:
+                p = subprocess.run([sys.executable, "-c", code] + mode + ["-"], input=data, stdout=subprocess.PIPE,
+                                   stderr=subprocess.PIPE, env=env, timeout=20)
+            except subprocess.TimeoutExpired:
+                return "hera %s - with %r on standard input does not end within 20 s" % (" ".join(mode), data), n
+            n += 1
+            err = p.stderr.decode("utf-8", "replace")
+            if "Traceback" in err or p.returncode != want:
+                return ("hera %s - with the bytes %r on strictly decoded standard input ends with status %d%s; documented: %d, no traceback"
+                        % (" ".join(mode), data, p.returncode, " and a Python traceback (%s)" % err.strip().splitlines()[-1][:80]
+                           if "Traceback" in err else "", want)), n
+    return None, n
+
+
 def known_replays(ctx, findings):
     """Findings recorded with an argument vector that must be a usage error."""
     out = []
@@ -187,6 +211,10 @@ def known_replays(ctx, findings):
                     bad = bad or main_oracle(random.Random(0), root, fx)[0]
             finally:
                 shutil.rmtree(root, ignore_errors=True)
+            out.append((e, bad is not None, bad))
+            continue
+        if e["id"] == "D67":
+            bad, _ = stdin_bytes_oracle()
             out.append((e, bad is not None, bad))
             continue
         if e["id"] == "D57":
